@@ -201,26 +201,56 @@ func (a *anyConv) scalar(kind int, v *pgVal) interface{} {
 	}
 	r := a.r
 	if a.mode == 2 {
+		floats := []interface{}{float64(0), float64(-1.5), float64(2147483648.75), float64(-9.3e18), float64(1e19), float64(3e38),
+			float64(1e39), math.Inf(1), math.Inf(-1), math.NaN(), float32(7.9), float32(-3e9), float32(16777217), math.Float64frombits(r.next()),
+			math.Float32frombits(uint32(r.next())), float64(int64(r.next())), float64(1) / 3, float64(0.1), 1e-320, float64(math.MaxFloat32) * 1.00000003}
+		texts := []interface{}{"12", "-7", "+5", "x", "", "9223372036854775807", "9223372036854775808", "-9223372036854775808", "1_0", " 1",
+			[]byte("42"), []byte("-"), "007"}
 		switch kind {
 		case pgKString:
-			if r.chance(80) {
+			switch r.intn(4) {
+			case 0:
 				return append([]byte{}, v.B...)
+			case 1:
+				return []interface{}{int32(-7), int64(1) << 62, uint64(1) << 63, int8(-128), uint16(65535), int(0)}[r.intn(6)]
+			case 2:
+				return r.bool()
+			default:
+				return floats[r.intn(len(floats))] // FormatFloat: outside the model
 			}
-			return int32(7) // text conversion: outside the model
 		case pgKBytes:
 			return string(v.B) // no cast for bytes: error
 		case pgKFloat, pgKDouble:
-			if r.chance(50) {
+			switch r.intn(4) {
+			case 0:
 				return r.bool()
+			case 1:
+				return []interface{}{int32(3), int64(1)<<53 + 1, int64(-1)<<62 - 1, ^uint64(0), uint64(1)<<63 + 1025, int8(-1), uint32(16777217), int(33554433)}[r.intn(8)]
+			case 2:
+				f := floats[r.intn(len(floats))]
+				if kind == pgKFloat {
+					if x, ok := f.(float32); ok {
+						return float64(x)
+					}
+					return f
+				}
+				if x, ok := f.(float64); ok {
+					return float32(x)
+				}
+				return f
+			default:
+				return texts[r.intn(len(texts))] // ParseFloat: outside the model
 			}
-			return int32(3) // float conversion: outside the model
 		case pgKBool:
-			return []interface{}{int(r.intn(3)), int8(0), uint16(2), uint64(1) << 63, int64(-1), "", "x", []byte{}, float64(0), float32(1)}[r.intn(10)]
+			return []interface{}{int(r.intn(3)), int8(0), uint16(2), uint64(1) << 63, int64(-1), "", "x", []byte{}, float64(0), float32(1), math.NaN(), math.Copysign(0, -1)}[r.intn(12)]
 		case pgKEnum:
 			return int32(v.I.Int64()) // enums are not cast
 		}
-		if r.chance(5) {
-			return "12" // text conversion: outside the model
+		switch r.intn(5) {
+		case 0:
+			return floats[r.intn(len(floats))]
+		case 1:
+			return texts[r.intn(len(texts))]
 		}
 		return a.otherInt(kind, v)
 	}
